@@ -517,3 +517,42 @@ def _guarded_in_expression_name(sub: ast.AST, key: str) -> bool:
         cur = p
         p = parent(p)
     return False
+
+
+def check_dependency_regexes(ctx: Ctx) -> None:
+    """Thorough: the literal regex constants of the marko modules on the parse path have none of the exponential shapes either."""
+    from ..loader import site_packages
+
+    sp = site_packages() / "marko"
+    n = 0
+    for path in sorted(sp.rglob("*.py")):
+        rel = path.relative_to(sp)
+        if rel.parts[0] == "ext" and (len(rel.parts) < 2 or rel.parts[1] not in ("gfm", "footnote.py", "pangu.py", "__init__.py")):
+            continue
+        try:
+            tree = ast.parse(path.read_text())
+        except (OSError, SyntaxError):
+            continue
+        for c in ast.walk(tree):
+            if not (isinstance(c, ast.Call) and isinstance(c.func, ast.Attribute) and c.args and isinstance(c.args[0], ast.Constant)
+                    and isinstance(c.args[0].value, str) and len(c.args[0].value) > 2):
+                continue
+            attr = c.func.attr
+            is_re_call = isinstance(c.func.value, ast.Name) and c.func.value.id == "re" and attr in (
+                "compile", "match", "search", "sub", "finditer", "findall", "split", "fullmatch")
+            if not (is_re_call or attr == "expect_re"):
+                continue
+            pat = c.args[0].value
+            n += 1
+            try:
+                rx = Regex(pat, re.M)
+                amb = rx.glushkov().exponentially_ambiguous()
+                stars = rx.star_problems()
+            except ValueError as e:
+                ctx.note(f"dependency_regex_unparsed:{rel}:{c.lineno}", str(e))
+                continue
+            ctx.ob("R-TERM-T3dep", f"marko/{rel} :: {pat!r}"[:160], amb is None and not stars,
+                   "dependency pattern with an exponential-backtracking shape (a hang here is outside the repository, but it is a hang of "
+                   "the formatter): " + "; ".join(([amb] if amb else []) + stars) if (amb or stars) else "no exponential shape",
+                   f"marko/{rel}:{c.lineno}")
+    ctx.require("R-TERM-T3dep", "literal regex patterns in marko", n, 20)
